@@ -306,14 +306,21 @@ Definition table_build : doc -> res unit := fun _ => Ok tt.
 Definition api_parameter_values (h : hist Z) : list (string * option Z) :=
   map (fun kv => (iso_date (of_ord (fst kv)), snd kv)) h.
 
-(** loader/variables.py build_variable: result["formulas"] = {start: ...} for every dated
-    formula, plus {day after end: None} when the variable has an end. *)
-Definition api_variable_formulas (x : var) : list (string * bool) :=
+(** loader/variables.py build_variable: result["formulas"] = {start date: source of the formula}
+    for every dated formula of variable.formulas (a SortedDict keyed by the ISO start date),
+    plus {get_next_day(variable.end): None} when the variable has an end; no "formulas" key at
+    all for a variable without formula (even with an end).  A formula is [Some expr] here, the
+    end marker [None]; a later entry with the same date replaces an earlier one (dict). *)
+Definition api_variable_formula_dates (x : var) : list (date * option expr) :=
   match v_formulas x with
   | [] => []
-  | fs => (map (fun se => (iso_date (fst se), true)) fs
-           ++ match v_end x with Some e => [(iso_date (add_days e 1), false)] | None => [] end)%list
+  | fs => (map (fun se => (fst se, Some (snd se))) fs
+           ++ match v_end x with Some e => [(add_days e 1, None)] | None => [] end)%list
   end.
+
+Definition api_variable_formulas (x : var) : list (string * bool) :=
+  map (fun e => (iso_date (fst e), match snd e with Some _ => true | None => false end))
+      (api_variable_formula_dates x).
 
 Definition unit_upper (u : unit_t) : string := upper (unit_name u).
 
@@ -327,6 +334,30 @@ Definition api_default_value (x : var) : leaf :=
   | TFloat => Flt (inject_Z (v_default x))
   | TBool => Bool (negb (v_default x =? 0))
   end.
+
+Definition entity_key (e : ent) : string :=
+  match e with EPerson => "person" | EGroup => "household" end.
+
+(** The attributes of GET /variable/<id> that depend on the variable's definition
+    (build_variable): "defaultValue" (get_default_value), "valueType", "definitionPeriod"
+    (definition_period.upper()), "entity" (entity.key), "formulas".  "id", "description",
+    "source", "documentation", "references" are texts of the declaration; "possibleValues"
+    exists for Enum variables only, which the rule language of Engine.v does not have (the
+    harness compares it for its own enum variables, oracle side). *)
+Record variable_listing := mk_listing {
+  a_default : leaf;
+  a_value_type : string;
+  a_definition_period : string;
+  a_entity : string;
+  a_formulas : list (string * bool)      (* ISO start date |-> a formula (true) or null (false) *)
+}.
+
+Definition api_variable (x : var) : variable_listing :=
+  {| a_default := api_default_value x;
+     a_value_type := formatted_type (v_type x);
+     a_definition_period := unit_upper (v_unit x);
+     a_entity := entity_key (v_ent x);
+     a_formulas := api_variable_formulas x |}.
 
 (** * The engine of Engine.v behind the handlers *)
 
